@@ -250,6 +250,12 @@ func (w *ammWorld) setHeight(h int64) {
 	w.out.Emit(fmt.Sprintf("height %d", h), "ok", "height", false)
 }
 
+// poolDepths: the pricing depths of a pool as the property defines them — the pool's balance plus the liabilities
+// of the margin positions that are still open — computed from the stored fields, not through the code under test.
+func poolDepths(p *clptypes.Pool) (sdk.Uint, sdk.Uint) {
+	return p.NativeAssetBalance.Add(p.NativeLiabilities), p.ExternalAssetBalance.Add(p.ExternalLiabilities)
+}
+
 func asset(s string) *clptypes.Asset { a := clptypes.NewAsset(s); return &a }
 
 func (w *ammWorld) pool(sym string) *clptypes.Pool {
@@ -596,6 +602,18 @@ func (w *ammWorld) poolMargin(sym string, nL, eL, nC, eC *big.Int) {
 	}
 	p.NativeLiabilities, p.ExternalLiabilities = uintOf(nL), uintOf(eL)
 	p.NativeCustody, p.ExternalCustody = uintOf(nC), uintOf(eC)
+	// bad debt x/margin wrote off when it closed under-water positions: pure bookkeeping that no clp path reads
+	// (pool depths are balance + liabilities of OPEN positions only), so the model does not carry it
+	switch w.rng.Intn(3) {
+	case 0:
+		p.UnsettledNativeLiabilities, p.UnsettledExternalLiabilities = sdk.ZeroUint(), sdk.ZeroUint()
+	case 1:
+		p.UnsettledNativeLiabilities = uintOf(new(big.Int).Rsh(nTot, uint(1+w.rng.Intn(8))))
+		p.UnsettledExternalLiabilities = uintOf(new(big.Int).Rsh(eTot, uint(1+w.rng.Intn(8))))
+	default:
+		p.UnsettledNativeLiabilities = uintOf(w.rng.Amount(80))
+		p.UnsettledExternalLiabilities = uintOf(w.rng.Amount(80))
+	}
 	p.NativeAssetBalance, p.ExternalAssetBalance = uintOf(new(big.Int).Sub(nTot, nC)), uintOf(new(big.Int).Sub(eTot, eC))
 	if err := w.app.ClpKeeper.SetPool(w.ctx, p); err != nil {
 		panic(err)
@@ -653,7 +671,7 @@ func (w *ammWorld) opCreate(u sdk.AccAddress, sym string, n, e *big.Int) {
 func (w *ammWorld) opAdd(u sdk.AccAddress, sym string, n, e *big.Int) {
 	class := "add"
 	if p := w.pool(sym); p != nil {
-		nD, eD := p.ExtractDebt(p.NativeAssetBalance, p.ExternalAssetBalance, false)
+		nD, eD := poolDepths(p)
 		if nD.IsZero() || eD.IsZero() {
 			class = "add.emptyside" // the ErrorEmptyPool branch of CalculatePoolUnits on an existing pool
 		}
@@ -682,7 +700,7 @@ func (w *ammWorld) probeRemoval(u sdk.AccAddress, sym string) *removalProbe {
 	if p == nil || err != nil {
 		return pr
 	}
-	nD, eD := p.ExtractDebt(p.NativeAssetBalance, p.ExternalAssetBalance, false)
+	nD, eD := poolDepths(p)
 	pr.P, pr.nD, pr.eD = p.PoolUnits.BigInt(), nD.BigInt(), eD.BigInt()
 	pr.units = lp.LiquidityProviderUnits.BigInt()
 	pr.bn = w.app.BankKeeper.GetBalance(w.ctx, u, "rowan").Amount.BigInt()
@@ -777,7 +795,7 @@ func (w *ammWorld) opSwap(u sdk.AccAddress, sent, recv string, amt, minR *big.In
 			if p == nil {
 				return nil, nil, false
 			}
-			nD, eD := p.ExtractDebt(p.NativeAssetBalance, p.ExternalAssetBalance, false)
+			nD, eD := poolDepths(p)
 			return nD.BigInt(), eD.BigInt(), true
 		}
 		rr := w.app.ClpKeeper.GetPmtpRateParams(w.ctx).PmtpCurrentRunningRate.BigInt()
@@ -861,7 +879,7 @@ func (w *ammWorld) opDecom(sym string) {
 	// quotients inside CalculateWithdrawal, whose absolute error scales with the depth (<= depth * 1e-17, generous)
 	perRefund := 2
 	if p := w.pool(sym); p != nil {
-		nD, eD := p.ExtractDebt(p.NativeAssetBalance, p.ExternalAssetBalance, false)
+		nD, eD := poolDepths(p)
 		m := nD.BigInt()
 		if eD.BigInt().Cmp(m) > 0 {
 			m = eD.BigInt()
@@ -1108,6 +1126,31 @@ func init() {
 			w.setHeight(15)
 			w.opEpoch()
 		}
+		// D20: depth rewards accumulated in the pools when the remaining-amount clamp binds: three pools of 1, 1 and 4
+		// whole rowan (weights 1/6, 1/6, 4/6 round up at 18 decimals), 6·10¹⁸ per block — the pools may record only
+		// what was minted; the same with five pools and in distribute mode
+		for _, dist := range []bool{false, true} {
+			w := newAmmWorld(rng, out, 3, -1)
+			w.fundAll()
+			for i, sym := range []string{"cusdc", "ceth", "cet1"} {
+				n := int64(1)
+				if i == 2 {
+					n = 4
+				}
+				w.opCreate(w.users[0], sym, e18(n), e18(int64(3+i)))
+				w.opAdd(w.users[1], sym, big.NewInt(0), e18(1))
+			}
+			def := sdk.OneDec()
+			a := sdk.NewUintFromString("60000000000000000000")
+			per := &clptypes.RewardPeriod{RewardPeriodId: "rp", RewardPeriodStartBlock: 1, RewardPeriodEndBlock: 10, RewardPeriodAllocation: &a, RewardPeriodDefaultMultiplier: &def, RewardPeriodDistribute: dist, RewardPeriodMod: 1}
+			p := w.app.ClpKeeper.GetRewardsParams(w.ctx)
+			p.RewardPeriods = []*clptypes.RewardPeriod{per}
+			w.app.ClpKeeper.SetRewardParams(w.ctx, p)
+			w.cfg(fmt.Sprintf("rewardperiod 1 10 60000000000000000000 1 %s 1000000000000000000", b2s(dist)))
+			for i := 0; i < 3 && !w.halted; i++ {
+				w.opEndBlock()
+			}
+		}
 		// D19: depth rewards paid to providers with a tiny allocation (1 base unit per block, 3 equal providers; 2
 		// per block, 5 providers; 1 per block, 2 providers): every share rounds to zero — whatever is minted and
 		// cannot be paid must be burned again, nothing may stay in the module account
@@ -1263,7 +1306,7 @@ func init() {
 			tenth := new(big.Int).Quo(e18(1), big.NewInt(10))
 			w.poolMargin("cusdc", big.NewInt(0), tenth, big.NewInt(0), big.NewInt(0))
 			if p := w.pool("cusdc"); p != nil {
-				X, Y := p.ExtractDebt(p.NativeAssetBalance, p.ExternalAssetBalance, false)
+				X, Y := poolDepths(p)
 				f := decRaw(w.configuredFee("rowan"))
 				target := p.ExternalAssetBalance
 				lo, hi := big.NewInt(1), new(big.Int).Mul(e18(1), big.NewInt(1000))
